@@ -108,6 +108,7 @@ def check(col: Collector, tier: str):
     col.floor("C11.R2", 4)
     si = ScopeInterp(repo)
     okp = True
+    okd = True
     n = 0
     for recs, end, st in si.run(pan):
         if st == "raise":
@@ -122,10 +123,17 @@ def check(col: Collector, tier: str):
         decl = [i for i, r in enumerate(acts) if r.kind == "declare-here" and r.what == "result_rep"]
         nested_after_push = [i for i, k in enumerate(kinds) if k == "nested" and ip < i < iq]
         okp = okp and len(decl) == 1 and decl[0] < ip and not nested_after_push and iq == len(acts) - 1
+        # the variable carries the scope that was current on entry; an argument translated in place may move the cursor (First(), a loop),
+        # so the declaration has to be made before the first argument is translated - otherwise it lands in a block the result outlives
+        first_nested = [i for i, k in enumerate(kinds) if k == "nested"]
+        okd = okd and (not decl or not first_nested or decl[0] < first_nested[0])
     retained = sorted({f"line {r.ev.node.lineno}" for recs, _, _ in si.run(pan) for r in recs if r.kind == "nested-retained"})
     col.add("C11.R2", pan.short, "arguments-translated-in-place", not retained,
             f"arguments translated with retain_scope=True at {retained}: the block that uses the argument's C++ would be emitted at the scope "
             "that was current before the argument opened its loop/if (e.g. First()), i.e. outside the loop whose variable it mentions", pan.loc)
+    col.add("C11.R2", pan.short, "result-declared-where-its-scope-was-taken", okd and n > 0,
+            "the result variable is created with the scope current on entry; it must be declared before any argument is translated (an argument "
+            "such as x.First().pt() leaves the cursor inside its loop and if-block)", pan.loc)
     col.add("C11.R2", pan.short, "declare-result,translate-arguments,open,close", okp and n > 0,
             "order on every path: result declared at the calling scope, all arguments translated, block opened, block closed last", pan.loc)
     blk = [n_ for n_ in walk_no_nested(fn) if isinstance(n_, ast.Assign) and isinstance(n_.value, ast.Call) and call_name(n_.value) == "block"]
